@@ -113,7 +113,7 @@ ONE = T1 + "t1_propagate.<locals>._t1_one_graph"
 # node ids are only hashed and compared by this code: modelled as an opaque totally ordered sort (any such key type,
 # python str included); keeps string ordering out of the quantified goals
 R.untype("Nid")
-R.dictlike("T1Delta", {"op": "str", "id": "Un[Nid]"})
+R.dictshape("T1Delta", {"op": "str", "id": "Un[Nid]"})
 _SORTED_ITEMS = [    # facts about `sorted(acc.items(), key=kv[0])`, proved at loop entry from the sorted()/items() model
     "forall(m, 0 <= m < len(_iter), _iter[m][0] in acc and acc[_iter[m][0]] == _iter[m][1])",
     "forall((k, 'Un[Nid]'), k in acc, exists(m, 0 <= m < len(_iter), _iter[m][0] == k))",
